@@ -1,4 +1,4 @@
-import MlModel.Lemmas.TreeInPlace
+import MlModel.Lemmas.TreeApi
 /-!
 # C18 — tree views obey get/set laws and never mutate the viewed data
 
@@ -13,32 +13,6 @@ path `p` at some position (neither is a prefix of the other).
 -/
 namespace MlModel.C18
 open MlModel.Tree
-
-/-! ## the API entry points in terms of `_set_by_path` -/
-
-@[simp] theorem finishSet_fst (ip : Bool) (root : Ref) (r : Res Ref) : (finishSet ip root r).1 = r.1 := by
-  obtain ⟨h1, e⟩ := r; cases e <;> rfl
-
-theorem copyAndSet_path (strict : Bool) (h : Heap) (t : Ref) (p : Path) (v : Ref) :
-    copyAndSet strict h t (.path p) v = setPath strict false h t p v := by
-  simp only [copyAndSet, setItem]
-  generalize setPath strict false h t p v = r
-  obtain ⟨h1, e⟩ := r
-  cases e <;> simp [finishSet]
-
-theorem setMany_extends (strict : Bool) : ∀ (kvs : List (Path × Ref)) (h : Heap) (t : Ref),
-    Extends h (setMany strict false h t kvs).1 := by
-  intro kvs
-  induction kvs with
-  | nil => intro h t; simp [setMany]; exact Extends.refl _
-  | cons kv kvs ih =>
-    intro h t
-    obtain ⟨p, v⟩ := kv
-    simp only [setMany]
-    have h1 := setPath_extends strict h t p v
-    split
-    · rename_i h1' d he; rw [he] at h1; exact h1.trans (ih h1' d)
-    · rename_i h1' e he; rw [he] at h1; exact h1
 
 /-! ## C18_no_mutation -/
 
@@ -67,33 +41,6 @@ theorem C18_no_mutation_copy_and_update (strict : Bool) (h : Heap) (root : Ref) 
   split
   · exact Extends.refl _
   · exact setMany_extends strict _ h root
-
-theorem shallowCopy_extends (h : Heap) (r : Ref) : Extends h (shallowCopy h r).1 := by
-  unfold shallowCopy
-  split <;> first | exact extends_push _ _ | exact Extends.refl _
-
-theorem mapValues_extends {f : LeafFn} (hf : ∀ h r, Extends h (f h r).1) :
-    ∀ (ps : List Path) (h : Heap) (root : Ref), Extends h (mapValues f h root ps).1 := by
-  intro ps
-  induction ps with
-  | nil => intro h root; simp [mapValues]; exact Extends.refl _
-  | cons p ps ih =>
-    intro h root
-    simp only [mapValues]
-    split
-    · exact Extends.refl _
-    · rename_i r mapped _
-      have h1 : Extends h (if mapped = true then f h r else (h, r)).1 := by
-        split
-        · exact hf h r
-        · exact Extends.refl _
-      generalize (if mapped = true then f h r else (h, r)) = fr at h1
-      obtain ⟨h1', v⟩ := fr
-      simp only
-      have h2 := ih h1' root
-      split
-      · rename_i h2' kvs he; rw [he] at h2; exact h1.trans h2
-      · rename_i h2' e he; rw [he] at h2; exact h1.trans h2
 
 /-- `apply()` performs no write on a pre-existing cell, for every leaf function that itself only
 allocates (`hf`). -/
@@ -181,26 +128,8 @@ theorem C18_multikey_ok {h : Heap} {t : Ref} {ks : List Path} {rs : List Ref}
     rw [hm] at hg
     simp only [Except.map, Except.ok.injEq, GetRes.many.injEq] at hg
     subst hg
-    induction ks generalizing rs' with
-    | nil =>
-      simp [List.mapM_nil, pure, Except.pure] at hm
-      subst hm; simp
-    | cons k ks ih =>
-      rw [List.mapM_cons] at hm
-      cases hk : get h t k with
-      | error e => simp [hk, bind, Except.bind] at hm
-      | ok r =>
-        cases hks : ks.mapM (fun k => get h t k) with
-        | error e => simp [hk, hks, bind, Except.bind] at hm
-        | ok rs'' =>
-          simp [hk, hks, bind, Except.bind, pure, Except.pure] at hm
-          subst hm
-          obtain ⟨hl, hall⟩ := ih rs'' hks
-          refine ⟨by simp [hl], ?_⟩
-          intro i hi hi'
-          cases i with
-          | zero => simpa using hk
-          | succ j => simpa using hall j (by simpa using hi) (by simpa using hi')
+    have hf := mapM_ok hm
+    exact ⟨hf.length_eq.symm, fun i hi hi' => hf.get i hi hi'⟩
 
 /-! ## C18_inplace -/
 
@@ -210,5 +139,181 @@ met when walking the path from the root is unchanged (contrast with `C18_no_muta
 theorem C18_inplace (strict : Bool) (h : Heap) (t v : Ref) (p : Path) (r : Ref) (hr : r < h.size)
     (hoff : r ∉ pathCells h t p) : (setPath strict true h t p v).1[r]? = h[r]? :=
   (setPath_inplace_frame strict p h t v).2 r hr hoff
+
+/-! ## C18_set_same -/
+
+/-- **Setting a path to its current value changes nothing**: the new tree is structurally equal to the old
+one (same node kinds, same keys in the same order, same leaves), for every finite tree (`WF`: no cycle
+below `t`; the rest of the heap is arbitrary) and every path that can be read. -/
+theorem C18_set_same (strict : Bool) {h : Heap} {t cur : Ref} {p : Path} {h' : Heap} {t' : Ref}
+    (hp : PlainSelf p) (w : WF h t) (hg : get h t p = .ok cur)
+    (hs : copyAndSet strict h t (.path p) cur = (h', .ok t')) : SEq h' h t' t := by
+  rw [copyAndSet_path] at hs
+  have he : Extends h h' := by have := setPath_extends strict h t p cur; rw [hs] at this; exact this
+  exact setPath_set_same strict p h t cur h' t' (WF h) hp (WF.region h) w w hg hs h'
+    (fun r wr => he.2 r wr.lt) (fun _ _ _ => rfl)
+
+/-- The original is still structurally equal to what it was, in any extension of the heap. -/
+theorem C18_no_mutation_struct {h h' : Heap} (e : Extends h h') {t : Ref} (w : WF h t) : SEq h' h t t :=
+  SEq.of_WF_agree (WF.region h) (fun r wr => e.2 r wr.lt) w w
+
+/-! ## C18_items -/
+
+/-- **`items()` lists every leaf exactly once with a path that reads back that leaf** (container root with
+at least one child; `LeafWalk h root q x` = following the stored keys `q` from the root arrives at the
+leaf `x`, a leaf being anything that is not a non-empty dict/list/tuple):
+no path is listed twice, every leaf walk is listed with its leaf, and every listed pair is a leaf walk
+whose path reads back exactly that object. -/
+theorem C18_items {h : Heap} (hg : GoodDicts h) {root : Ref} {n : Node} (hn : h[root]? = some n)
+    (hc : n.children ≠ []) {kvs : List (Path × Ref)} (hi : items h root = .ok kvs) :
+    (kvs.map (·.1)).Nodup ∧
+    (∀ q x, LeafWalk h root q x → (q, x) ∈ kvs) ∧
+    (∀ p x, (p, x) ∈ kvs → LeafWalk h root p x ∧ get h root p = .ok x) := by
+  unfold items at hi
+  cases hk : keysOf h root with
+  | error e => simp [hk] at hi
+  | ok ps =>
+    rw [hk] at hi
+    simp only at hi
+    have hf := mapM_ok hi
+    unfold keysOf at hk
+    have hroot : ([] : Path) ≠ [] ∨ ∃ n, h[root]? = some n ∧ n.children ≠ [] := Or.inr ⟨n, hn, hc⟩
+    have hkeys : kvs.map (·.1) = ps := by
+      clear hk hi
+      induction hf with
+      | nil => rfl
+      | @cons a b l1 l2 hab _ ih =>
+        cases hga : get h root a with
+        | error e => simp [hga, Except.map] at hab
+        | ok x => simp [hga, Except.map] at hab; subst hab; simp [ih]
+    have hval : ∀ p x, (p, x) ∈ kvs → p ∈ ps ∧ get h root p = .ok x := by
+      intro p x hm
+      obtain ⟨a, ha, hr⟩ := hf.mem_right hm
+      cases hga : get h root a with
+      | error e => simp [hga, Except.map] at hr
+      | ok y => simp [hga, Except.map] at hr; obtain ⟨rfl, rfl⟩ := hr; exact ⟨ha, hga⟩
+    refine ⟨by rw [hkeys]; exact dfs_nodup h hg _ root [] ps hk hroot, ?_, ?_⟩
+    · intro q x hw
+      have hq : q ∈ ps := by simpa using dfs_complete h _ root [] ps hk hroot q x hw
+      obtain ⟨b, hb, hr⟩ := hf.mem_left hq
+      rw [hw.get hg] at hr
+      simp [Except.map] at hr
+      subst hr; exact hb
+    · intro p x hm
+      obtain ⟨hp, hgp⟩ := hval p x hm
+      obtain ⟨q, y, hq, hw⟩ := dfs_sound h _ root [] ps hk hroot p hp
+      simp only [List.nil_append] at hq
+      subst hq
+      have := hw.get hg
+      rw [hgp] at this; cases this
+      exact ⟨hw, hgp⟩
+
+/-- **DFS order**: the paths of a container are the concatenation, in stored order (dict insertion order /
+sequence positions), of the paths of its children, each prefixed by the child's key. -/
+theorem C18_items_dfs_order (h : Heap) (fuel : Nat) (r : Ref) (parent : Path) {n : Node} (hn : h[r]? = some n)
+    (hc : n.children ≠ []) {ps : List Path} (hd : dfs h (fuel + 1) r parent = .ok ps) :
+    ∃ parts : List (List Path),
+      Forall2 (fun kc part => dfs h fuel kc.2 (parent ++ [kc.1]) = .ok part) n.children parts ∧
+      ps = parts.flatten := by
+  rw [dfs_succ h fuel r parent hn] at hd
+  have hne : n.children.isEmpty = false := by
+    cases hc' : n.children with
+    | nil => exact absurd hc' hc
+    | cons _ _ => rfl
+  simp only [hne] at hd
+  exact collectE_ok hd
+
+/-- **The enumeration terminates on every finite tree** (for a sufficiently large recursion budget), and
+a larger budget never changes the result (`dfs_mono_le`). -/
+theorem C18_items_terminates {h : Heap} {root : Ref} {n : Node} (w : WF h root) (hn : h[root]? = some n)
+    (hc : n.children ≠ []) : ∃ fuel ps, ∀ fuel', fuel ≤ fuel' → dfs h fuel' root [] = .ok ps := by
+  cases w with
+  | @mk _ n' hn' hch =>
+    rw [hn] at hn'; cases hn'
+    -- one level by hand (the root has the empty parent path), children by `dfs_total`
+    have hall : ∃ F, ∀ kc ∈ n.children, ∃ ps, dfs h F kc.2 ([] ++ [kc.1]) = .ok ps := by
+      have hmemrefs : ∀ kc ∈ n.children, WF h kc.2 := by
+        intro kc hkc
+        apply hch
+        cases n with
+        | dict es =>
+          simp only [Node.children, List.mem_map] at hkc
+          obtain ⟨e, he, rfl⟩ := hkc
+          exact List.mem_map.mpr ⟨e, he, rfl⟩
+        | list rs =>
+          obtain ⟨k, c⟩ := kc
+          obtain ⟨i, hi, _⟩ := mem_seqChildren.mp hkc
+          exact List.mem_of_getElem? hi
+        | tuple rs =>
+          obtain ⟨k, c⟩ := kc
+          obtain ⟨i, hi, _⟩ := mem_seqChildren.mp hkc
+          exact List.mem_of_getElem? hi
+        | leaf v => simp [Node.children] at hkc
+        | null => simp [Node.children] at hkc
+      generalize n.children = kcs at hmemrefs
+      induction kcs with
+      | nil => exact ⟨0, fun _ hkc => by cases hkc⟩
+      | cons kc kcs ih2 =>
+        obtain ⟨F1, hF1⟩ := dfs_total (hmemrefs kc (by simp))
+        obtain ⟨F2, hF2⟩ := ih2 (fun kc' hkc' => hmemrefs kc' (by simp [hkc']))
+        refine ⟨max F1 F2, ?_⟩
+        intro kc' hkc'
+        rcases List.mem_cons.mp hkc' with e | e
+        · subst e
+          obtain ⟨ps, hps⟩ := hF1 ([] ++ [kc'.1]) (by simp)
+          exact ⟨ps, dfs_mono_le h (Nat.le_max_left _ _) hps⟩
+        · obtain ⟨ps, hps⟩ := hF2 kc' e
+          exact ⟨ps, dfs_mono_le h (Nat.le_max_right _ _) hps⟩
+    obtain ⟨F, hF⟩ := hall
+    have hne : n.children.isEmpty = false := by
+      cases hc' : n.children with
+      | nil => exact absurd hc' hc
+      | cons _ _ => rfl
+    obtain ⟨ps, hps⟩ : ∃ ps, dfs h (F + 1) root [] = .ok ps := by
+      rw [dfs_succ h F root [] hn]
+      simp only [hne]
+      exact collectE_total (fun kc hkc => hF kc hkc)
+    exact ⟨F + 1, ps, fun fuel' hle => dfs_mono_le h hle hps⟩
+
+/-! ## non-vacuity: a concrete heap satisfies every hypothesis used above (tests, not theorems) -/
+
+section Examples
+
+/-- `[{'a': 1, 'b': 2}, 1]` at cell 3 (the leaf `1` is shared), a value `9` at cell 4, a tuple at cell 5. -/
+private def h0 : Heap :=
+  #[.leaf (.int 1), .leaf (.int 2), .dict [(.str "a", 0), (.str "b", 1)], .list [2, 0], .leaf (.int 9),
+    .tuple [0, 1]]
+
+example : Closed h0 := closedB_sound (by decide)
+example : WF h0 3 := wfB_sound 10 3 (by decide)
+example : GoodDicts h0 := goodDictsB_sound (by decide)
+example : PlainSelf [.idx 0, .str "a"] := by simp [PlainSelf, PKey.isPlain]
+example : PlainSelf [.idx 0, .self, .str "zzz"] := by simp [PlainSelf, PKey.isPlain]
+/-- existing path: the set succeeds and returns a fresh root (cell 6); the heap grew by the two copies -/
+example : (copyAndSet false h0 3 (.path [.idx 0, .str "a"]) 4).2 = .ok 6 := rfl
+example : (copyAndSet false h0 3 (.path [.idx 0, .str "a"]) 4).1.size = 8 := rfl
+/-- fresh path (append, then a new dict): succeeds -/
+example : (copyAndSet false h0 3 (.path [.idx 2, .str "k"]) 4).2 = .ok 6 := rfl
+/-- a path into a tuple: copied as list, rebuilt as tuple (fresh cell 7) -/
+example : (copyAndSet false h0 5 (.path [.idx 1]) 4).2 = .ok 7 := rfl
+/-- a path `set` rejects -/
+example : (copyAndSet false h0 3 (.path [.idx 5]) 4).2 = .error .key := rfl
+example : Diverge [.idx 0, .str "a"] [.idx 0, .str "b"] :=
+  .next rfl rfl rfl (.here rfl (by intro i h; cases h) (Or.inl rfl) (by intro i h; cases h) (by decide))
+example : Diverge [.idx 0, .str "a"] [.idx 1] :=
+  .here rfl (by intro i h; cases h; decide) (Or.inl rfl) (by intro i h; cases h; decide) (by decide)
+/-- set-same: the current value of `[0]['a']` is cell 0 -/
+example : get h0 3 [.idx 0, .str "a"] = .ok 0 := rfl
+example : (copyAndSet false h0 3 (.path [.idx 0, .str "a"]) 0).2 = .ok 6 := rfl
+/-- items: three leaves in DFS order (the shared leaf cell 0 is listed at both of its paths) -/
+example : items h0 3 = .ok [([.idx 0, .str "a"], 0), ([.idx 0, .str "b"], 1), ([.idx 1], 0)] := rfl
+example : (Node.list [2, 0]).children ≠ [] := by simp [Node.children, seqChildren]
+/-- in place: cell 2 (the dict) and 3 (the root) are on the path `[0]['a']`, the tuple cell 5 is not -/
+example : pathCells h0 3 [.idx 0, .str "a"] = [3, 2] := rfl
+example : (setPath false true h0 3 [.idx 0, .str "a"] 4).1[2]? = some (.dict [(.str "a", 4), (.str "b", 1)]) := rfl
+/-- multi-key read -/
+example : getItem h0 3 (.multi [[.idx 1], [.idx 0, .str "b"]]) = .ok (.many [0, 1]) := rfl
+
+end Examples
 
 end MlModel.C18
